@@ -411,3 +411,102 @@ func zzC10FanOut() {
 	}
 	vReach("end")
 }
+
+// H3': the same interleaving search for the other cached methods: prompts/list, resources/list,
+// resources/templates/list (both invalidated by resources/list_changed) and resources/read (invalidated per URI by
+// resources/updated). A version counter stands for the server's state; every answer names the version current when
+// the server produced it.
+var zzKindOfCache int
+
+func zzVersionName() string { return string([]byte{'v', byte('0' + zzSrvVersion)}) }
+
+func zzKindsRPC(ctx context.Context, method string, req Request) (Result, error) {
+	name := zzVersionName()
+	vYield()
+	c := Cacheable{TTLMs: 60000}
+	switch method {
+	case methodListPrompts:
+		return &ListPromptsResult{Prompts: []*Prompt{{Name: name}}, Cacheable: c}, nil
+	case methodListResources:
+		return &ListResourcesResult{Resources: []*Resource{{URI: name}}, Cacheable: c}, nil
+	case methodListResourceTemplates:
+		return &ListResourceTemplatesResult{ResourceTemplates: []*ResourceTemplate{{URITemplate: name}}, Cacheable: c}, nil
+	case methodReadResource:
+		return &ReadResourceResult{Contents: []*ResourceContents{{URI: "file:///x", Text: name}}, Cacheable: c}, nil
+	}
+	vUnsupported("unexpected method")
+	return nil, nil
+}
+
+// zzFetch issues the list/read of the chosen kind through the real session method and returns the version it names.
+func zzFetch(cs *ClientSession, ctx context.Context) string {
+	switch zzKindOfCache {
+	case 0:
+		if r, err := cs.ListPrompts(ctx, &ListPromptsParams{}); err == nil && len(r.Prompts) == 1 {
+			return r.Prompts[0].Name
+		}
+	case 1:
+		if r, err := cs.ListResources(ctx, &ListResourcesParams{}); err == nil && len(r.Resources) == 1 {
+			return r.Resources[0].URI
+		}
+	case 2:
+		if r, err := cs.ListResourceTemplates(ctx, &ListResourceTemplatesParams{}); err == nil && len(r.ResourceTemplates) == 1 {
+			return r.ResourceTemplates[0].URITemplate
+		}
+	case 3:
+		if r, err := cs.ReadResource(ctx, &ReadResourceParams{URI: "file:///x"}); err == nil && len(r.Contents) == 1 {
+			return r.Contents[0].Text
+		}
+	}
+	return ""
+}
+
+func zzC18CacheKinds() {
+	c := &Client{}
+	c.sendingMethodHandler_ = zzKindsRPC
+	cs := &ClientSession{client: c}
+	cs.state.InitializeResult = &InitializeResult{ProtocolVersion: protocolVersion20260728}
+	zzSrvVersion = 1
+	zzKindOfCache = vChoice("kind", 4)
+	handled := 0
+	inHandler := ""
+	listerDone, overlapped := false, false
+	react := func(ctx context.Context) {
+		handled = zzSrvVersion
+		inHandler = zzFetch(cs, ctx) // the usual reaction: re-fetch from inside the handler
+	}
+	c.opts.PromptListChangedHandler = func(ctx context.Context, _ *PromptListChangedRequest) { react(ctx) }
+	c.opts.ResourceListChangedHandler = func(ctx context.Context, _ *ResourceListChangedRequest) { react(ctx) }
+	c.opts.ResourceUpdatedHandler = func(ctx context.Context, _ *ResourceUpdatedNotificationRequest) { react(ctx) }
+	if vBool("cacheWarm") {
+		vAssert(zzFetch(cs, context.Background()) == "v1", "C18.kinds.first-fetch")
+		vAssert(zzFetch(cs, context.Background()) == "v1", "C18.kinds.second-fetch")
+	}
+	vGo(func() { // an application goroutine fetching
+		zzFetch(cs, context.Background())
+		listerDone = true
+	})
+	vGo(func() { // the server changes and the client handles the notification
+		overlapped = !listerDone
+		zzSrvVersion = 2
+		ctx := context.Background()
+		switch zzKindOfCache {
+		case 0:
+			c.callPromptChangedHandler(ctx, &PromptListChangedRequest{Session: cs, Params: &PromptListChangedParams{}})
+		case 1, 2:
+			c.callResourceChangedHandler(ctx, &ResourceListChangedRequest{Session: cs, Params: &ResourceListChangedParams{}})
+		case 3:
+			c.callResourceUpdatedHandler(ctx, &ResourceUpdatedNotificationRequest{Session: cs, Params: &ResourceUpdatedNotificationParams{URI: "file:///x"}})
+		}
+	})
+	vJoin()
+	vAssert(handled == 2, "C18.kinds.handler-ran")
+	vAssert(inHandler == "v2", "C18.kinds.fetch-inside-handler-is-fresh")
+	vAssert(zzFetch(cs, context.Background()) == "v2", "C18.kinds.fetch-after-handled-change-is-fresh")
+	if overlapped {
+		vReach("overlapped")
+	} else {
+		vReach("sequential")
+	}
+	vReach("end")
+}
